@@ -74,6 +74,9 @@ type replayOutcome struct {
 	File       string `json:"file"`
 }
 
+// outDir: where evidence/ and replay/ go (the verif directory unless --out-dir is given)
+var outDir string
+
 func cmdCheck(args []string) int {
 	fs := flag.NewFlagSet("check", flag.ExitOnError)
 	tier := fs.String("tier", "", "quick|thorough")
@@ -81,6 +84,7 @@ func cmdCheck(args []string) int {
 	solver := fs.String("solver", "z3-new", "solver")
 	solverMs := fs.Int("solver-ms", 30000, "per query timeout ms")
 	only := fs.String("only", "", "subset of harnesses (no evidence written)")
+	outDirFlag := fs.String("out-dir", "", "write evidence/ and replay/ under this directory instead of the verif directory (experiments on scratch trees)")
 	noReplay := fs.Bool("no-replay", false, "skip native replay")
 	debug := fs.Bool("debug", false, "debug")
 	if len(args) < 1 {
@@ -89,6 +93,10 @@ func cmdCheck(args []string) int {
 	}
 	prop := args[0]
 	fs.Parse(args[1:])
+	outDir = verifDir()
+	if *outDirFlag != "" {
+		outDir = *outDirFlag
+	}
 	if *tier == "" {
 		*tier = os.Getenv("VERIF_TIER")
 	}
@@ -111,7 +119,7 @@ func cmdCheck(args []string) int {
 		return 3
 	}
 	kf := loadKnownFile()
-	replayDir := filepath.Join(verifDir(), "replay", prop)
+	replayDir := filepath.Join(outDir, "replay", prop)
 	os.MkdirAll(replayDir, 0o755)
 	nviol := 0
 	nreplayed := 0
@@ -564,8 +572,8 @@ func writeEvidence(prop, tier string, seed int, rr *RunResult, spec *Spec, repla
 		"property_id": prop, "tier": tier, "seed": seed, "level": "model_checking", "coverage": cov,
 		"assumptions": assumptions, "wall_s": wall, "violations": nviol,
 	}
-	os.MkdirAll(filepath.Join(verifDir(), "evidence"), 0o755)
-	writeJSON(filepath.Join(verifDir(), "evidence", prop+".json"), ev)
+	os.MkdirAll(filepath.Join(outDir, "evidence"), 0o755)
+	writeJSON(filepath.Join(outDir, "evidence", prop+".json"), ev)
 }
 
 // cmdReplay: re-run a stored counterexample natively. Exit 1 if it reproduces.
